@@ -171,3 +171,9 @@ Proof.
   intros c bs Hbs H. unfold reverse_iter_lines.
   rewrite (reverse_bytes_spec c bs (length c) Hbs); rewrite firstn_all; [reflexivity|assumption].
 Qed.
+
+Theorem reverse_latin1_all : forall c bs, (1 <= bs)%nat ->
+  reverse_iter_lines TextLatin1 c bs (length c) = Ok (ril_tail c).
+Proof.
+  intros c bs Hbs. unfold reverse_iter_lines. rewrite reverse_bytes_all by exact Hbs. rewrite firstn_all. reflexivity.
+Qed.
